@@ -659,7 +659,7 @@ func (c *Ctx) zero(s *Sort, gt types.Type) Term {
 		if gt != nil {
 			if a, ok := types.Unalias(gt).Underlying().(*types.Array); ok {
 				// arrays: fixed length, zero elements
-				arr := fmt.Sprintf("((as const (Array Int %s)) %s)", s.Elem.Name, c.zero(s.Elem, a.Elem()).S)
+				arr := c.constArr(c.arrSort(sortInt, s.Elem), c.zero(s.Elem, a.Elem())).S
 				return Term{S: fmt.Sprintf("(%s %d %s)", s.Ctor, a.Len(), arr), Sort: s, Go: gt}
 			}
 		}
@@ -765,4 +765,38 @@ func quantPat(binder, body, pat string) string {
 		return fmt.Sprintf("(forall (%s) %s)", binder, body)
 	}
 	return fmt.Sprintf("(forall (%s) (! %s :pattern (%s)))", binder, body, pat)
+}
+
+// constArr: the array mapping every index to v. cvc5 only accepts value constants in (as const ...),
+// so for other element terms a fresh array with a quantified definition is used.
+func (c *Ctx) constArr(arrSort *Sort, v Term) Term {
+	simple := v.S == "true" || v.S == "false"
+	if !simple {
+		if _, err := fmt.Sscanf(v.S, "%d", new(int64)); err == nil && !strings.ContainsAny(v.S, " (") {
+			simple = true
+		}
+	}
+	if simple {
+		return Term{S: fmt.Sprintf("((as const %s) %s)", arrSort.Name, v.S), Sort: arrSort}
+	}
+	key := "constarr." + arrSort.Name + "." + v.S
+	if t, ok := c.globals[key]; ok {
+		return t
+	}
+	a := c.fresh("constarr", arrSort)
+	c.emit(fmt.Sprintf("(assert (forall ((k!c %s)) (! (= (select %s k!c) %s) :pattern ((select %s k!c)))))", arrSort.Key.Name, a.S, v.S, a.S))
+	c.globals[key] = a
+	return a
+}
+
+// opaqueIsNil: nil-ness of interface / function / channel values is an uninterpreted predicate that holds for the zero value.
+func (c *Ctx) opaqueIsNil(v Term) Term {
+	fn := "isnil." + v.Sort.Name
+	if !c.declared[fn] {
+		c.declared[fn] = true
+		c.emit(fmt.Sprintf("(declare-fun %s (%s) Bool)", fn, v.Sort.Name))
+		z := c.zero(v.Sort, nil)
+		c.emit(fmt.Sprintf("(assert (%s %s))", fn, z.S))
+	}
+	return app(sortBool, fn, v)
 }
